@@ -87,3 +87,12 @@ package decoder
 //@ contract (decoder.TypeDeclaration).tupleHoverAtPos (td, ctx, funcExpr, pos) (result)
 //@   requires [C12] funcExpr != nil && funcExpr.Range().ContainsPos(pos)
 //@   ensures [C12] result == nil || (result.Range.ContainsPos(pos) && len(result.Content.Value) > 0)
+
+// ---- C08: self.* is offered only inside a body that enables it: the flag is set on the context handed to
+// ---- value completion only, never on the context of nested bodies.
+//@ contract (*decoder.PathDecoder).completionAtPos (d, ctx, body, outerBodyRng, bodySchema, pos) (result, err)
+//@   requires [C08] !schema.ActiveSelfRefsFromContext(ctx)
+//@   assert before attrValueCompletionAtPos#1 : [C08] implies(schema.ActiveSelfRefsFromContext(arg1), bodySchema.Extensions != nil && bodySchema.Extensions.SelfRefs)
+//@   assert before attrValueCompletionAtPos#2 : [C08] implies(schema.ActiveSelfRefsFromContext(arg1), bodySchema.Extensions != nil && bodySchema.Extensions.SelfRefs)
+//@   assert before attrValueCompletionAtPos#3 : [C08] implies(schema.ActiveSelfRefsFromContext(arg1), bodySchema.Extensions != nil && bodySchema.Extensions.SelfRefs)
+//@   assert before attrValueCompletionAtPos#4 : [C08] implies(schema.ActiveSelfRefsFromContext(arg1), bodySchema.Extensions != nil && bodySchema.Extensions.SelfRefs)
